@@ -19,7 +19,7 @@ static std::string op_brief(const OpResult& o)
 static Plan gen_c06(uint64_t seed, int64_t index, bool thorough)
 {
     Rng rng(hash_seed(seed, "C06", index));
-    std::vector<std::string> pk = keys_for({ "G1", "G2", "G3", "G4", "G5", "G6", "G7", "G8", "G9", "G10", "G11", "G12", "G13", "G14", "G15", "G16", "G17", "G18", "T1" });
+    std::vector<std::string> pk = keys_for({ "G1", "G2", "G3", "G4", "G5", "G6", "G7", "G8", "G9", "G10", "G11", "G12", "G13", "G14", "G15", "G16", "G17", "G18", "G19", "G20", "T1" });
     std::vector<std::string> rk = regex_keys();
     PlanOp op;
     std::string mode;
@@ -213,7 +213,7 @@ static std::string first_line(const std::string& s)
 static Plan gen_c09(uint64_t seed, int64_t index, bool thorough)
 {
     Rng rng(hash_seed(seed, "C09", index));
-    std::vector<std::string> pk = keys_for({ "G2", "G3", "G4", "G5", "G8", "G9", "G10", "G10", "G12", "G15", "G15", "G17", "G17" });
+    std::vector<std::string> pk = keys_for({ "G2", "G3", "G4", "G5", "G8", "G9", "G10", "G10", "G12", "G15", "G15", "G17", "G17", "G19", "G19", "G20", "G20" });
     std::string key = rng.pick(pk);
     const ref::Model* m = model_for(grammar_of(key));
     OpShape sh;
@@ -349,7 +349,7 @@ static std::vector<Violation> case_c09(const Plan& p, CaseCtx& cx)
 static Plan gen_c10(uint64_t seed, int64_t index, bool thorough)
 {
     Rng rng(hash_seed(seed, "C10", index));
-    std::vector<std::string> pk = keys_for({ "G1", "G2", "G4", "G4", "G5", "G5", "G6", "G6", "G7", "G9", "G9", "G10", "G10", "G11", "G12", "G13", "G14", "G15", "G16", "G17", "G18", "T1" }, false);
+    std::vector<std::string> pk = keys_for({ "G1", "G2", "G4", "G4", "G5", "G5", "G6", "G6", "G7", "G9", "G9", "G10", "G10", "G11", "G12", "G13", "G14", "G15", "G16", "G17", "G18", "G19", "G20", "T1" }, false);
     std::string key = rng.pick(pk);
     const ref::Model* m = model_for(grammar_of(key));
     OpShape sh;
@@ -481,7 +481,7 @@ static std::vector<Violation> case_c10(const Plan& p, CaseCtx& cx)
 static Plan gen_c08(uint64_t seed, int64_t index, bool thorough)
 {
     Rng rng(hash_seed(seed, "C08", index));
-    std::vector<std::string> pk = keys_for({ "G1", "G1", "G6", "G7", "G7", "G11", "G11", "G13", "G13", "G14", "G15", "G16", "G17", "G18", "T1" });
+    std::vector<std::string> pk = keys_for({ "G1", "G1", "G6", "G7", "G7", "G11", "G11", "G13", "G13", "G14", "G15", "G16", "G17", "G18", "G19", "G20", "T1" });
     std::string key = rng.pick(pk);
     const ref::Model* m = model_for(grammar_of(key));
     OpShape sh;
@@ -563,11 +563,12 @@ static bool c08_compare(const Plan& p, const OpResult& o, const ref::RefResult& 
     return true;
 }
 
-// Grammars whose table is, on the pinned tree, exactly the canonical LR(1) table (no maximal-length rule ends in a
-// nonterminal, so observation O1 cannot touch them): for these the recovery outcome is ALSO judged against the
-// canonical construction, so that a table that stops offering the error symbol where the grammar says it can be
-// accepted is reported. The other recovery grammars (G1) are judged over the parser's own table only.
-static bool canonical_recovery_grammar(const std::string& g) { return g == "G6" || g == "G7" || g == "G11" || g == "G13" || g == "G14" || g == "T1"; }
+// Since fixes F7 and F8 the table the library constructs is, for EVERY fleet grammar, exactly the canonical LR(1)
+// table up to state numbering (`simworker --list` prints the comparison). The recovery outcome is therefore ALSO judged
+// against the canonical construction for every grammar, so that a table that stops offering the error symbol where the
+// grammar says it can be accepted is reported. (Before those fixes G1 and G16 carried spurious lookaheads - by-product
+// O1, now F7 - and were judged over the parser's own table only.) G10 is not a recovery grammar.
+static bool canonical_recovery_grammar(const std::string& g) { return g != "G10"; }
 
 static std::vector<Violation> case_c08(const Plan& p, CaseCtx& cx)
 {
